@@ -43,12 +43,14 @@ def methodIn (j : Json) : MethodIn :=
     hasConfig := getBool j "has_config"
     path := getStr j "path"
     verbNum := getNat j "verb_num"
-    queryNames := getStrList j "query_names" }
+    queryNames := getStrList j "query_names"
+    queryRequired := getStrList j "query_required" }
 
 def routeJson (r : Route) : Json :=
   Json.mkObj [("verb", jstr r.verb), ("template", jstr r.template),
     ("path_vars", Json.arr (r.pathVars.map jstr).toArray),
     ("query_names", Json.arr (r.queryNames.map jstr).toArray),
+    ("query_required", Json.arr (r.queryRequired.map jstr).toArray),
     ("has_body", Json.bool r.hasBody)]
 
 def genName : Generator → String
